@@ -148,16 +148,17 @@ Eval(c, w, lw, m) ==
     [] OTHER -> LET ss == Sels(c, w) IN
          IF AnyErr(ss) THEN {FALSE}
          ELSE IF c.kind = "increase" THEN {Cmp(c, IF Len(ss) < 2 THEN 0 ELSE ss[Len(ss)].v - ss[1].v)}
+         ELSE IF Defect = "maxLast" THEN {Cmp(c, IF Len(ss) = 0 THEN 0 ELSE MaxI({0, ss[Len(ss)].v}))}
          ELSE {Cmp(c, MaxI({0} \cup {ss[k].v : k \in DOMAIN ss}))}
 
 LastN(n, s) == IF Len(s) <= n THEN s ELSE SubSeq(s, Len(s) - n + 1, Len(s))
 Rep(x, n) == [k \in 1..n |-> x]
 
 HeapOf(sc) == IF HasFam(sc, "go_memstats_heap_inuse_bytes") THEN Fam(sc, "go_memstats_heap_inuse_bytes").m[1].v \div 1000 ELSE 0      \* bytes (TLC: 32 bit integers)
-StartOf(sc) == IF HasFam(sc, "app_start_time_secs") THEN Fam(sc, "app_start_time_secs").m[1].v ELSE 0 - 2000000000   \* 0 = 1970
+StartOf(sc) == IF HasFam(sc, "app_start_time_secs") THEN Fam(sc, "app_start_time_secs").m[1].v ELSE 0       \* absent: 0 = 1970, always warm
 \* snapshots taken in (now, t1] while the registry shows sc
 Snaps(sc, t1) == LET j0 == now \div MemMs  j1 == t1 \div MemMs IN
-  IF HeapOf(sc) = 0 THEN <<>> ELSE [k \in 1..(j1 - j0) |-> [b |-> HeapOf(sc), ok |-> (j0 + k) * MemMs - StartOf(sc) >= WarmMs]]
+  IF HeapOf(sc) = 0 THEN <<>> ELSE [k \in 1..(j1 - j0) |-> [b |-> HeapOf(sc), ok |-> (Defect = "warmCounts" \/ ~HasFam(sc, "app_start_time_secs") \/ (j0 + k) * MemMs - StartOf(sc) >= WarmMs)]]
 
 \* a guard with a name (trace validation overrides GFail to record which one failed)
 GFail(name) == FALSE
